@@ -28,8 +28,13 @@ ValidName(n) == /\ Len(n) >= 1
 
 (* ---- sequences of characters ------------------------------------------- *)
 Has(s, c) == \E i \in 1..Len(s) : s[i] = c
-First(s, c) == IF Has(s, c) THEN CHOOSE i \in 1..Len(s) : s[i] = c /\ \A j \in 1..(i - 1) : s[j] # c ELSE 0
-Last(s, c) == IF Has(s, c) THEN CHOOSE i \in 1..Len(s) : s[i] = c /\ \A j \in (i + 1)..Len(s) : s[j] # c ELSE 0
+(* index of the first / last occurrence of c in s, 0 if there is none *)
+RECURSIVE FirstFrom(_, _, _)
+FirstFrom(s, c, i) == IF i > Len(s) THEN 0 ELSE IF s[i] = c THEN i ELSE FirstFrom(s, c, i + 1)
+First(s, c) == FirstFrom(s, c, 1)
+RECURSIVE LastFrom(_, _, _)
+LastFrom(s, c, i) == IF i < 1 THEN 0 ELSE IF s[i] = c THEN i ELSE LastFrom(s, c, i - 1)
+Last(s, c) == LastFrom(s, c, Len(s))
 Before(s, i) == SubSeq(s, 1, i - 1)
 After(s, i) == SubSeq(s, i + 1, Len(s))
 
@@ -84,13 +89,15 @@ ExecArnOf(sm, name) ==
                        p.resource \o <<Colon>> \o name))
 
 (* what an execution ARN identifies: the resource after "execution:" is <machine>:<name>,
-   read at its LAST colon (names contain none, so for accepted names every colon would do) *)
-IsExecArn(e) == LET p == ParseArn(e) IN p.ok /\ p.hasType /\ p.rtype = T_execution /\ Has(p.resource, Colon)
-NameOfExec(e) == LET p == ParseArn(e) IN After(p.resource, Last(p.resource, Colon))
-SmArnOfExec(e) ==
-    LET p == ParseArn(e)
-    IN CreateArn(Parts(p.arn, p.partition, p.service, p.region, p.account, TRUE, T_stateMachine,
-                       Before(p.resource, Last(p.resource, Colon))))
+   read at its LAST colon (names contain none, so for accepted names every colon would do).
+   The ...P forms take the parsed parts, so that a caller parses once. *)
+IsExecP(p) == p.ok /\ p.hasType /\ p.rtype = T_execution /\ Has(p.resource, Colon)
+NameOfExecP(p) == After(p.resource, Last(p.resource, Colon))
+SmArnOfExecP(p) == CreateArn(Parts(p.arn, p.partition, p.service, p.region, p.account, TRUE, T_stateMachine,
+                                   Before(p.resource, Last(p.resource, Colon))))
+IsExecArn(e) == IsExecP(ParseArn(e))
+NameOfExec(e) == NameOfExecP(ParseArn(e))
+SmArnOfExec(e) == SmArnOfExecP(ParseArn(e))
 
 (* ---- the round-trip laws (model-checked by MC_Arn over all short strings) -------------- *)
 (* parts -> text -> parts, for a resource id `s` under the type `t` (or no type) *)
@@ -102,5 +109,6 @@ TextRoundTrip(x) == CreateArn(ParseArn(x)) = x
 (* machine + name -> execution ARN -> machine + name *)
 LinkRoundTrip(sm, name) ==
     LET e == ExecArnOf(sm, name)
-    IN IsExecArn(e) /\ SmArnOfExec(e) = sm /\ NameOfExec(e) = name /\ TextRoundTrip(e)
+        p == ParseArn(e)
+    IN IsExecP(p) /\ SmArnOfExecP(p) = sm /\ NameOfExecP(p) = name /\ CreateArn(p) = e
 =============================================================================
